@@ -10,7 +10,8 @@ MCKeys == {"#highway", "@wikidata", "name", "type"}
 MCVals == {"x", "y"}
 MCIDOrder == <<"P1", "P2", "P3", "P4", "W1", "W2", "W3", "A101", "A102", "A1", "A2", "A3", "R1", "R2">>
 
-OT(h, w, n, t) == [k \in OSMKeys |-> CASE k = "highway" -> h [] k = "wikidata" -> w [] k = "name" -> n [] k = "type" -> t]
+OT(h, w, n, t) == [k \in OSMKeys |-> CASE k = "highway" -> h [] k = "wikidata" -> w [] k = "name" -> n [] k = "type" -> t [] OTHER -> "-"]
+With(t, k, v) == [t EXCEPT ![k] = v]
 NoOT == OT("-", "-", "-", "-")
 Node(v, t) == [v |-> v, tags |-> t]
 Way(ns, t) == [nodes |-> ns, tags |-> t]
@@ -21,7 +22,7 @@ NoRel == [type |-> "-", members |-> <<>>, tags |-> NoOT]
 
 NodeAlts == [n \in MCNodeIDs |->
    CASE n = 1 -> {Node(0, OT("x", "-", "-", "-"))}
-     [] n = 2 -> {Node(1, NoOT)}
+     [] n = 2 -> {Node(1, NoOT), Node(1, With(OT("-", "-", "x", "-"), "point", "q"))}    \* a node tagged point=q
      [] n = 3 -> {Node(2, OT("-", "-", "y", "-")), Node(-1, NoOT)}
      [] n = 4 -> {Node(3, OT("-", "x", "-", "-"))}]
 WayAlts == [w \in MCWayIDs |->
@@ -31,6 +32,7 @@ WayAlts == [w \in MCWayIDs |->
                   Way(<<1, 3, 2, 1>>, OT("-", "-", "x", "-"))}
      [] w = 2 -> {NoWay,
                   Way(<<2, 3, 4>>, OT("x", "y", "-", "-")),
+                  Way(<<2, 3, 4>>, With(OT("x", "-", "-", "-"), "path", "q")),                \* an open way tagged path=q
                   Way(<<2, 3, 4, 2>>, OT("-", "-", "y", "-"))}
      [] w = 3 -> {NoWay, Way(<<1, 2, 4, 1>>, OT("-", "x", "-", "-"))}]
 RelAlts == [r \in MCRelIDs |->
